@@ -204,7 +204,8 @@ Section Transfer.
   Definition sum_tr (A : bmat) (x : list T) : list T :=
     let z := vdivn x (colsums (length x) A) in map (fun r => dot r z) A.
 
-  (* what the CODE computes for kind="sum" on (N,1) data:  wt = mat.sum(axis=0)
+  (* what the code computed BEFORE femio commit b1450d5 for kind="sum" on
+     (N,1) data (kept so that a regression is recognised):  wt = mat.sum(axis=0)
      is a (1,N) np.matrix, so  x / wt  broadcasts (N,1)/(1,N) to the N x N
      array X[i][j] = x_i / w_j and  mat @ X  is the M x N array
      Y[m][j] = (sum_i mat[m][i] x_i) / w_j *)
